@@ -117,6 +117,8 @@ def classify_loops(run, f, t, ctxinfo, kmax, counts):
     key0 = f.key.replace("parser::Parser::", "")
 
     def v(node, anc):
+        if not node:
+            return
         h = node[0]
         if h == "for":
             it = node[2]
